@@ -253,6 +253,35 @@ fn body() -> BoxedStrategy<(Vec<u8>, bool)> {
     prop_oneof![
         // (a byte order mark is not JSON white space: such a body is a document every path must refuse alike)
         6 => (lead, valid.clone()).prop_map(|(l, s)| (format!("{l}{s}").into_bytes(), !l.starts_with('\u{feff}'))),
+        // a complete document followed by something else (both paths have to refuse it alike)
+        1 => (valid.clone(), proptest::sample::select(vec!["]", "}", " {}", "\n{\"version\":3,\"sources\":[],\"names\":[],\"mappings\":\"\"}", "\n//# sourceMappingURL=x.map", "\n)]}'\n", "x", "\u{0}", " \n\t "])).prop_map(|(s, tail)| {
+            let b = format!("{s}{tail}").into_bytes();
+            let ok = decode_slice(&b).is_ok();
+            (b, ok)
+        }),
+        // JSON that is fine as JSON but wrong as a source map document (types, duplicate keys, arrays)
+        1 => proptest::sample::select(vec![
+            r#"{"version":"3","sources":["a.js"],"names":[],"mappings":"AAAA"}"#,
+            r#"{"version":3.0,"sources":["a.js"],"names":[],"mappings":"AAAA"}"#,
+            r#"{"version":-3,"sources":["a.js"],"names":[],"mappings":"AAAA"}"#,
+            r#"{"version":4294967296,"sources":["a.js"],"names":[],"mappings":"AAAA"}"#,
+            r#"{"version":3,"version":3,"sources":["a.js"],"names":[],"mappings":"AAAA"}"#,
+            r#"{"version":3,"sources":["a.js"],"sources":["b.js"],"names":[],"mappings":"AAAA"}"#,
+            r#"{"version":3,"sources":["a.js"],"names":[],"mappings":"AAAA","mappings":"AAAA"}"#,
+            r#"[3,null,["a.js"],null,null,null,[],null,"AAAA"]"#,
+            r#"{"version":null,"file":"x","sources":["a.js"],"names":[],"mappings":"AAAA"}"#,
+            r#"{"version":3,"sources":"a.js","names":[],"mappings":"AAAA"}"#,
+            r#"{"version":3,"sources":["a.js"],"names":[],"mappings":null}"#,
+            r#"{"version":3,"sections":{}}"#,
+            r#"{"version":3,"sections":[],"mappings":"AAAA","sources":[],"names":[]}"#,
+            r#"3"#,
+            r#""mappings""#,
+            r#"null"#,
+        ]).prop_map(|s| {
+            let b = s.as_bytes().to_vec();
+            let ok = decode_slice(&b).is_ok();
+            (b, ok)
+        }),
         1 => (valid.clone(), any::<u16>()).prop_map(|(s, at)| {
             let b = s.into_bytes();
             let n = idx16(at, b.len() + 1);
